@@ -29,7 +29,8 @@ def main():
         first = {}
         for i in range(len(u["inputs"])):
             v = res.verdicts[(k, i)]
-            cls = "ok" if v == "ok" else "skip" if v == "A-invalid" else "race" if trap_kind(v) == "race" else "other"
+            cls = ("ok" if v == "ok" else "skip" if v == "A-invalid" else "race" if trap_kind(v) == "race"
+                   else "order" if v.startswith(("differ:", "uninit:", "cfg-differ:")) else "other")
             cnt[cls] += 1
             first.setdefault(cls, (i, v))
         n_in += len(u["inputs"])
@@ -39,14 +40,25 @@ def main():
             rep.violation({"class": "race", "prog": rec["prog"], "how": rec["how"].split("[")[0].split("(")[0]},
                           {"prog": rec["prog"], "how": rec["how"], "proc": rec["text"], "verdict": v,
                            "input": u["inputs"][i], "counts": dict(cnt)})
+        if "order" in cnt:
+            i, v = first["order"]
+            rep.violation({"class": "order-dependent", "prog": rec["prog"], "how": rec["how"].split("[")[0].split("(")[0]},
+                          {"prog": rec["prog"], "how": rec["how"], "proc": rec["text"], "verdict": v,
+                           "input": u["inputs"][i], "counts": dict(cnt)})
         rep.sample({"prog": rec["prog"], "how": rec["how"], "verdicts": dict(cnt)})
+    rep.add_cov(iteration_orders_explored=sum(res.terminals.values()),
+                inputs_with_several_final_states=sum(1 for v in res.terminals.values() if v > 1),
+                order_branching_transitions=max(0, res.generated - res.states))
     rep.add_cov(states=res.states, transitions=res.generated, traces_validated_against_impl=len(units),
                 programs_with_par_compiled=len(units), programs_with_par_rejected_by_backend=stat["backend-rejected"],
                 evaluations=n_in, distinct_nontrivial=len(units))
     rep.cov["rule"] = ("one case = a procedure containing par loops (written so, or obtained by parallelize_loop at every loop and "
                        "pairs of loops of the corpus) that the real backend compiles; TLC runs it on every bounded input with the "
                        "RaceFree monitor: at the end of each iteration of each parallel loop instance (any depth, also inside "
-                       "callees) its write/reduce set must be disjoint from every other iteration's read/write/reduce set")
+                       "callees) its write/reduce set must be disjoint from every other iteration's read/write/reduce set; then (ExoPar "
+                       "mode) TLC runs the same procedure again with the iterations of every parallel loop in every order (all "
+                       "permutations up to 3 iterations, identity/reversal/rotation beyond) and every final state must equal the "
+                       "sequential one")
     rep.assumptions += ["sequential execution order is used to collect per-iteration access sets", "bounded inputs"]
     return rep.finish()
 
